@@ -42,6 +42,19 @@ def gen_history(rng, ncomp, nops):
             ops.append((k, rng.randrange(ncomp), rng.randrange(3)))
         else:
             ops.append((k,))
+    if ncomp >= 3 and rng.random() < 0.2:
+        # a hub: one structure linked to two or three *different* neighbours, then removed (or cut); the neighbours are touched afterwards
+        h, *others = rng.sample(range(ncomp), min(ncomp, rng.randint(3, 4)))
+        for o in [h] + others:
+            ops.append(("add", o))
+        for k, o in enumerate(others):
+            ops.append(("connect", h, k, o, rng.randrange(3)))
+        ops.append((rng.choice(["remove", "remove", "cut"]), h))
+        for o in others:
+            ops.append((rng.choice(["cut", "remove", "connect", "solve"]), o) if rng.random() < 0.6 else ("solve",))
+        ops = [op if op[0] != "connect" or len(op) == 5 else ("connect", op[1], rng.randrange(3), others[0], rng.randrange(3)) for op in ops]
+        if rng.random() < 0.5:
+            ops.append(("readd", h))
     ops.append(("raise",))
     ops.append(("solve",))
     return ops
